@@ -2,7 +2,10 @@
 
 from __future__ import annotations
 
+import os
+import pickle
 import random
+import struct
 from collections import OrderedDict
 
 from simfw import boot
@@ -119,3 +122,34 @@ def alphabet_of(g):
         return sorted(c for c in out if isinstance(c, str))
     out.update([0x00, 0x41, 0xFF])
     return sorted(c for c in out if isinstance(c, int))
+
+
+def in_child(fn, timeout=60.0):
+    """Run fn() in a forked child; returns its (picklable) result or ('child-failed', reason)."""
+    r, w = os.pipe()
+    pid = os.fork()
+    if pid == 0:
+        try:
+            os.close(r)
+            try:
+                res = ("ok", fn())
+            except BaseException as e:  # noqa
+                import traceback
+
+                res = ("exc", "%s: %s\n%s" % (type(e).__name__, e, traceback.format_exc()[-1200:]))
+            data = pickle.dumps(res)
+            with os.fdopen(w, "wb") as f:
+                f.write(struct.pack("<I", len(data)))
+                f.write(data)
+        finally:
+            os._exit(0)
+    os.close(w)
+    with os.fdopen(r, "rb") as f:
+        hdr = f.read(4)
+        data = f.read(struct.unpack("<I", hdr)[0]) if len(hdr) == 4 else b""
+    os.waitpid(pid, 0)
+    if not data:
+        return ("exc", "child died")
+    return pickle.loads(data)
+
+
